@@ -235,19 +235,28 @@ inductive Printed where
 
 /-- `convert_to_bool_expression` + `output_result`: `c` is the combined expression;
 `order` the iteration order of the free symbols of the expression handed to `convert_to_dimacs` -/
+def dimacsInput (q : Quirks) (nf : NF) (form : Form) (r : BExp) : Except String BExp :=
+  -- `if form != "cnf": print(Warning); result = to_cnf(result, simplify=True)`
+  if form != .cnf then nfCall q nf .cnf r else .ok r
+
 def py2bexpOutput (q : Quirks) (nf : NF) (form : Form) (fmt : Format) (c : BExp)
-    (order : List String) : Except String Printed := do
-  let r ← convertToBoolExpression q nf form c
-  match fmt with
-  | .sympy => pure (.expr r)
-  | .dimacs =>
-    -- `if form != "cnf": print(Warning); result = to_cnf(result, simplify=True)`
-    let warned := form != .cnf
-    let r1 ← if warned then nfCall q nf .cnf r else pure r
-    -- `convert_to_dimacs(result)`: `to_cnf(expr, simplify=True).args`, `expr.free_symbols`
-    let cnf ← nfCall q nf .cnf r1
-    let d ← toDimacs q cnf order
-    pure (.dimacs warned d)
+    (order : List String) : Except String Printed :=
+  match convertToBoolExpression q nf form c with
+  | .error e => .error e
+  | .ok r =>
+    match fmt with
+    | .sympy => .ok (.expr r)
+    | .dimacs =>
+      match dimacsInput q nf form r with
+      | .error e => .error e
+      | .ok r1 =>
+        -- `convert_to_dimacs(result)`: `to_cnf(expr, simplify=True).args`, `expr.free_symbols`
+        match nfCall q nf .cnf r1 with
+        | .error e => .error e
+        | .ok cnf =>
+          match toDimacs q cnf order with
+          | .error e => .error e
+          | .ok d => .ok (.dimacs (form != .cnf) d)
 
 /-- text that reaches stdout when `-o -` (the default): `print(result)` appends a newline -/
 def Printed.stdoutText (render : BExp → String) : Printed → String
